@@ -97,6 +97,11 @@ def class_of(ev):
     if ev.get("op") == "pair":
         o = ev.get("out", {})
         return ["pair", ev.get("pair"), (o.get("a") or {}).get("ok"), (o.get("b") or {}).get("ok"), len(ev.get("b", [])) // 16]
+    if ev.get("op") == "xlate":
+        o = ev.get("out") or ev.get("exp") or {}
+        f = ev.get("file") or {}
+        kinds = sorted({("x" if it["x"] else "f", len(it["p"])) for it in ev.get("items", [])})
+        return ["xlate", f.get("syntax"), (ev.get("tgt") or {}).get("loc"), kinds, o.get("adec"), o.get("bdec")]
     if ev.get("op") == "fuzz":
         o = ev.get("out", {})
         return ["fuzz", o.get("ok1"), o.get("ok2"), ev.get("n")]
@@ -258,6 +263,9 @@ class Traces:
                     raise Infra("event of mode %s is not reproducible; refusing to report\nfirst: %s\nagain: %s" % (
                         g["mode"], json.dumps(e)[:600], json.dumps(e2)[:600]))
                 mm = []
+                if w and w.get("domain") is False:
+                    raise Infra("xlate event outside the specification's domain (the generator's translation or input is not "
+                                "what SchemaXlate defines): %s" % json.dumps({k: v for k, v in e.items() if k != "out"})[:1500])
                 if "panic" in (e.get("out") or {}):
                     mm = ["panic"]
                 elif w:
@@ -402,19 +410,33 @@ def c38(res, tier, seed):
              "edition %d, %s skeleton x <= %d overrides: 22 (feature, value) settings x every placement (file, messages, fields, "
              "enums, extensions); laws: fold = nearest explicit setting, Views reports ResolveNearest, derived semantics" % (ed, skel, k),
              "c38-%d-%s-%d" % (ed, skel, k), timeout=6000)
+    xs, xi = (2, 1) if quick else (3, 2)
+    tour(res, b, "MC_SchemaXlate",
+         cfg({"Tier": '"%s"' % tier, "MaxSteps": xs, "MaxItems": xi}, invariants=["XlateLaw", "VerdictsCoincide"], emit="Emit", view="View"),
+         "proto2 / proto3 files (schema machine, %d steps, + two hand-written bases with string fields and string extensions) vs their "
+         "editions translation x inputs of <= %d string occurrences over a well-/ill-formed UTF-8 alphabet; law: the translation is "
+         "valid and has the same runtime-relevant semantics" % (xs, xi), "c38-xlate", timeout=6000)
     res.exhaustive = True
     t = Traces(res, tier)
     t.add(b, "defaults", 5, seed)
     t.add(b, "pairschema", 10, seed)
     t.add(b, "pair", 1200 if quick else 40000, seed)
     t.add(b, "schemas", 40 if quick else 3000, seed + 3, want="snap,bsnap,bsame")
+    t.add(b, "xlate", 40 if quick else 4000, seed + 5)
     t.finish()
     res.rule = ("tour: every valid placement of up to %d feature overrides on editions skeletons, resolved features and derived "
                 "accessors (HasPresence, IsPacked, IsClosed, EnforceUTF8, group kind, required cardinality, Go features) of both "
                 "constructions vs Resolve; driver: edition defaults of 5 editions, schema equivalence of 6 proto2/proto3-vs-editions "
                 "type pairs (exact for editionsfuzztest, up to packing/UTF-8 for test<->testeditions), lock-step decode of random and "
                 "mutated wire inputs (verdict, deterministic bytes, size, JSON, text round trip, cross-type content), random editions "
-                "schemas; distinct = (pair, verdicts, input size class) and schema classes" % (1 if quick else 2))
+                "schemas; the skeletons also in untyped form (`type` omitted, kind inferred from type_name) x every message_encoding "
+                "setting x every placement; xlate tour: every proto2/proto3 file of the bounded schema space and two bases with "
+                "string fields/extensions (incl. option extensions of a proto3 file), built together with the specification's "
+                "editions translation, fed every single (thorough: pair of) string occurrence(s) over the UTF-8 alphabet -- decode "
+                "and encode verdicts must be the resolved utf8_validation's, all observations equal across the pair; driver: the "
+                "same on seeded random proto2/proto3 schemas; "
+                "distinct = (pair, verdicts, input size class), (syntax, input message kind, item kinds, verdicts) and schema classes"
+                % (1 if quick else 2))
     res.assumptions += ["oneof-level feature settings are not placed: the property's chain is file-message-field and the code ignores them",
                         "test.TestAllTypes, TestPackedTypes, TestManyMessageFieldsMessage are not translations of their testeditions namesakes "
                         "(extra fields, open enums) and are not paired"]
